@@ -320,6 +320,41 @@ func DeclAtoms() []Atom {
 		&Decl{Service: &Service{Name: "Child", Extends: "base.BaseSvc", Methods: []*Method{{Name: "childPing"}}}})
 	add("service/include-types", "service", true, nil,
 		&Decl{Service: &Service{Name: "Svc", Methods: []*Method{{Name: "get", Ret: T("base.Thing"), Args: []*Field{{ID: 1, Name: "k", Req: "default", Type: T("base.Kind")}, {ID: 2, Name: "i", Req: "default", Type: T("base.id2")}}, Throws: []*Field{{ID: 1, Name: "e", Req: "default", Type: T("base.BaseErr")}}}}}})
+	// names are scoped by their container: two declarations of one kind may use the same inner names
+	{
+		one, five := 1, 5
+		add("scoping/two-enums-share-value-names", "enum", false, nil,
+			&Decl{Enum: &Enum{Name: "Shape", Values: []*EnumValue{{Name: "UNKNOWN"}, {Name: "ROUND"}, {Name: "LAST", Explicit: &five}}}},
+			&Decl{Enum: &Enum{Name: "Mood", Values: []*EnumValue{{Name: "UNKNOWN", Explicit: &one}, {Name: "GOOD"}, {Name: "LAST"}}}})
+		add("scoping/enum-value-named-like-other-enum", "enum", false, nil,
+			&Decl{Enum: &Enum{Name: "First", Values: []*EnumValue{{Name: "Second"}, {Name: "A"}}}},
+			&Decl{Enum: &Enum{Name: "Second", Values: []*EnumValue{{Name: "First"}, {Name: "A"}}}})
+		fl := func(id int, n, t string) *Field { return &Field{ID: id, Name: n, Req: "default", Type: T(t)} }
+		add("scoping/two-structs-share-field-names-and-ids", "struct", false, nil,
+			&Decl{Struct: &Struct{Kind: "struct", Name: "Left", Fields: []*Field{fl(1, "id", "i32"), fl(2, "name", "string")}}},
+			&Decl{Struct: &Struct{Kind: "struct", Name: "Right", Fields: []*Field{fl(1, "id", "i64"), fl(2, "name", "binary")}}},
+			&Decl{Struct: &Struct{Kind: "union", Name: "Either", Fields: []*Field{fl(1, "id", "i32"), fl(2, "name", "string")}}},
+			&Decl{Struct: &Struct{Kind: "exception", Name: "Neither", Fields: []*Field{fl(1, "id", "i32"), fl(2, "name", "string")}}})
+		add("scoping/two-services-share-method-and-argument-names", "service", false, nil,
+			&Decl{Service: &Service{Name: "Alpha", Methods: []*Method{{Name: "get", Ret: T("i32"), Args: []*Field{fl(1, "key", "string")}}, {Name: "ping"}}}},
+			&Decl{Service: &Service{Name: "Beta", Methods: []*Method{{Name: "get", Ret: T("string"), Args: []*Field{fl(1, "key", "i64")}}, {Name: "ping"}}}})
+		add("scoping/two-scopes-share-operation-names", "scope", false, []*Decl{localStruct()},
+			&Decl{Scope: &Scope{Name: "Ins", Prefix: "in", Ops: []*Op{{Name: "Changed", Type: T("Point")}, {Name: "Gone", Type: T("Point")}}}},
+			&Decl{Scope: &Scope{Name: "Outs", Prefix: "out", Ops: []*Op{{Name: "Changed", Type: T("Point")}, {Name: "Gone", Type: T("Point")}}}})
+		add("scoping/method-args-and-throws-share-names-across-methods", "service", false, []*Decl{localException()},
+			&Decl{Service: &Service{Name: "Svc", Methods: []*Method{
+				{Name: "first", Args: []*Field{fl(1, "a", "i32"), fl(2, "b", "string")}, Throws: []*Field{fl(1, "e", "Oops")}},
+				{Name: "second", Ret: T("i32"), Args: []*Field{fl(1, "a", "string"), fl(2, "b", "i32")}, Throws: []*Field{fl(1, "e", "Oops")}}}}})
+	}
+	// two different exception types with the same bare name, one local and one from the include, in
+	// one throws list (both orders), and an included exception next to an unrelated local one
+	localBaseErr := &Decl{Struct: &Struct{Kind: "exception", Name: "BaseErr", Fields: []*Field{{ID: 1, Name: "code", Req: "default", Type: T("i32")}}}}
+	add("service/throws-same-name-local-then-include", "service", true, []*Decl{localBaseErr},
+		&Decl{Service: &Service{Name: "Svc", Methods: []*Method{{Name: "doIt", Ret: T("i32"), Args: []*Field{arg(1, "i32")}, Throws: []*Field{exc(1, "BaseErr"), exc(2, "base.BaseErr")}}, {Name: "other"}}}})
+	add("service/throws-same-name-include-then-local", "service", true, []*Decl{localBaseErr},
+		&Decl{Service: &Service{Name: "Svc", Methods: []*Method{{Name: "doIt", Args: []*Field{arg(1, "i32")}, Throws: []*Field{exc(1, "base.BaseErr"), exc(2, "BaseErr")}}, {Name: "other"}}}})
+	add("service/throws-include-and-local", "service", true, []*Decl{localException()},
+		&Decl{Service: &Service{Name: "Svc", Methods: []*Method{{Name: "doIt", Ret: T("string"), Throws: []*Field{exc(1, "base.BaseErr"), exc(2, "Oops")}}, {Name: "other", Throws: []*Field{exc(1, "Oops")}}}}})
 	// scopes
 	prefixes := []string{"", "foo", "foo.bar", "{user}", "foo.{user}", "foo.{a}.bar.{b}", "v1-x_y", "{ab}.{cd}"}
 	for _, p := range prefixes {
